@@ -114,30 +114,36 @@ def stops (o : Opts) (n : Nat) (sel : List Nat) (lossMin : Rat) (iMin : Nat) (lM
   (o.earlyStopping && decide (lossMin - o.epsTol ≤ lMin)) ||
   (numUnique n sel == 1 && sel.head? == some iMin)
 
-/-- the greedy `while` loop (after fix 14a) -/
+/-- the greedy `while` loop (after fix 14a).  `fuel` = number of iterations the caller is willing to
+wait for; it is only consulted when the loop condition holds, so `outOfFuel` means "the loop wants
+to run iteration number `fuel + 1`". -/
 def greedyLoop (o : Opts) (n : Nat) (L : List (Nat × Nat) → Rat) (bags : Nat → List Nat) :
     Nat → Nat → List Nat → Rat → Res
-  | 0, _, _, _ => .outOfFuel
-  | fuel + 1, it, sel, lossMin =>
+  | fuel, it, sel, lossMin =>
     if continues o n it sel then
-      match nanargmin (candLosses o n L sel (bags it)) with
-      | none => .ok sel                      -- fix 14a: no eligible candidate, stop
-      | some (iMin, lMin) =>
-        if stops o n sel lossMin iMin lMin then .ok sel
-        else greedyLoop o n L bags fuel (it + 1) (sel ++ [iMin]) lMin
+      match fuel with
+      | 0 => .outOfFuel
+      | fuel' + 1 =>
+        match nanargmin (candLosses o n L sel (bags it)) with
+        | none => .ok sel                      -- fix 14a: no eligible candidate, stop
+        | some (iMin, lMin) =>
+          if stops o n sel lossMin iMin lMin then .ok sel
+          else greedyLoop o n L bags fuel' (it + 1) (sel ++ [iMin]) lMin
     else .ok sel
 
 /-- the loop of the pinned tree: an all-NaN candidate list is an error -/
 def greedyLoopPre (o : Opts) (n : Nat) (L : List (Nat × Nat) → Rat) (bags : Nat → List Nat) :
     Nat → Nat → List Nat → Rat → Res
-  | 0, _, _, _ => .outOfFuel
-  | fuel + 1, it, sel, lossMin =>
+  | fuel, it, sel, lossMin =>
     if continues o n it sel then
-      match nanargmin (candLosses o n L sel (bags it)) with
-      | none => .allNaN
-      | some (iMin, lMin) =>
-        if stops o n sel lossMin iMin lMin then .ok sel
-        else greedyLoopPre o n L bags fuel (it + 1) (sel ++ [iMin]) lMin
+      match fuel with
+      | 0 => .outOfFuel
+      | fuel' + 1 =>
+        match nanargmin (candLosses o n L sel (bags it)) with
+        | none => .allNaN
+        | some (iMin, lMin) =>
+          if stops o n sel lossMin iMin lMin then .ok sel
+          else greedyLoopPre o n L bags fuel' (it + 1) (sel ++ [iMin]) lMin
     else .ok sel
 
 /-- the starting ensemble: `np.argsort(losses)[:k_init]` -/
